@@ -1,0 +1,23 @@
+// SPDX-FileCopyrightText: 2020-present Open Networking Foundation <info@opennetworking.org>
+//
+// SPDX-License-Identifier: Apache-2.0
+
+//go:build verif
+
+package mastership
+
+import (
+	"github.com/onosproject/onos-config/pkg/store/topo"
+	"github.com/onosproject/onos-config/pkg/store/v2/configuration"
+	"github.com/onosproject/onos-lib-go/pkg/controller"
+)
+
+// NewReconcilerForVerif returns the mastership reconciler on its own, without the controller runtime
+func NewReconcilerForVerif(topo topo.Store, configurations configuration.Store) controller.Reconciler {
+	return &Reconciler{topo: topo, configurations: configurations}
+}
+
+// NewWatchersForVerif returns the mastership controller's watchers, in the order NewController registers them
+func NewWatchersForVerif(topo topo.Store, configurations configuration.Store) []controller.Watcher {
+	return []controller.Watcher{&TopoWatcher{topo: topo}, &ConfigurationStoreWatcher{configurations: configurations}}
+}
